@@ -358,12 +358,14 @@ def execPrim (s : State) (p : FId) (fp : Fiber) (rest : List FId) (l : Nat) (pr 
     | .pair x _ => bind s fp x
     | .str st => bind s fp (match st.toList[0]? with | some c => .int c.toNat | none => .nil)
     | .kw st => bind s fp (match st.toList[0]? with | some c => .int c.toNat | none => .nil)
+    | .fib g => bind s fp (match s.fiber? g with | some fg => fg.last | none => .nil)   -- janet_getindex: fiber[0] = last_value
     | v => panic s p fp rest ("expected string, symbol, keyword, array, tuple, table, struct or buffer, got " ++ v.descr)
   | .snd a =>
     match ev a with
     | .pair _ y => bind s fp y
     | .str st => bind s fp (match st.toList[1]? with | some c => .int c.toNat | none => .nil)
     | .kw st => bind s fp (match st.toList[1]? with | some c => .int c.toNat | none => .nil)
+    | .fib _ => bind s fp .nil                                                           -- fiber[i > 0] = nil
     | v => panic s p fp rest ("expected string, symbol, keyword, array, tuple, table, struct or buffer, got " ++ v.descr)
   | .status f =>
     match ev f with
